@@ -36,13 +36,42 @@ fn main() {
         "C12-family" => rpc::c12_family_child(&args),
         "C13" => rpc::c13(&args),
         "C14-tcp" => rpc::c14_tcp(&args),
+        "C14-tcp-faults" => rpc::c14_tcp_faults(&args),
         "C15" => node::c15(&args),
         "C17" => storage::c17(&args),
         "C17-lmdb-batch" => storage::c17_lmdb_batch(&args),
         "C16" => node::c16(&args),
+        // sanity check of the sanitizer builds (seeded/self/selftest.py): a deliberate unsynchronised
+        // write from two threads (TSan must report it) / a heap read past the end (ASan, memcheck must)
+        "SELFTEST-race" => selftest_race(),
+        "SELFTEST-oob" => selftest_oob(),
         other => {
             eprintln!("unknown monitor {other}");
             std::process::exit(2);
         },
     }
+}
+
+fn selftest_race() {
+    static mut CELL: u64 = 0;
+    let hs: Vec<_> = (0..2)
+        .map(|k| {
+            std::thread::spawn(move || {
+                for i in 0..10_000u64 {
+                    unsafe { std::ptr::write_volatile(std::ptr::addr_of_mut!(CELL), i + k) };
+                }
+            })
+        })
+        .collect();
+    for h in hs {
+        h.join().unwrap();
+    }
+    println!("selftest-race done {}", unsafe { std::ptr::read_volatile(std::ptr::addr_of!(CELL)) });
+}
+
+fn selftest_oob() {
+    let v: Vec<u8> = vec![1; 24];
+    let p = std::hint::black_box(v.as_ptr());
+    let x = unsafe { std::ptr::read_volatile(p.add(std::hint::black_box(24))) };
+    println!("selftest-oob done {x}");
 }
